@@ -951,6 +951,15 @@ func (lb *LoadBalancer) proxyRequest(backend *Backend, w http.ResponseWriter, r 
 			// Aborted mid-response: a failed request of this backend
 			lb.recordRequestMetrics(backend, http.StatusBadGateway, startTime, r)
 		}
+
+		// A backend that was removed while this exchange was under way (or between the pick
+		// and the dispatch) is walked neither by a later removal nor by Stop: the connection
+		// this exchange leaves in its transport's idle pool is closed here
+		if !lb.isRegistered(backend) {
+			if t, ok := backend.ReverseProxy.Transport.(interface{ CloseIdleConnections() }); ok {
+				t.CloseIdleConnections()
+			}
+		}
 	}()
 
 	// Forward the request to the selected backend
